@@ -37,6 +37,7 @@ static int mut_cb(jwt_t *jwt, jwt_config_t *) {
   return G_PROG->ret;
 }
 
+static int idle_cb(jwt_t *, jwt_config_t *) { return 0; }
 // checker configuration
 struct Cfg { int key; /* -1 none, 1 oct64/HS256, 4 ec pub/ES256 */ bool iss, sub, aud; long exp_lee, nbf_lee; };
 // token spec
@@ -85,6 +86,14 @@ static std::string run_case(const Case &x, bool *nt = nullptr, int *v0out = null
   jwt_checker_t *a = make_checker(x.c); dirty(a); int v0 = jwt_checker_verify(a, TOKEN.c_str()); jwt_checker_free(a);
   jwt_checker_t *b = make_checker(x.c); Prog p = x.p; G_PROG = &p; G_RAN = false; jwt_checker_setcb(b, mut_cb, nullptr); dirty(b); G_RAN = false;
   int v1 = jwt_checker_verify(b, TOKEN.c_str()); int e1 = jwt_checker_error(b); jwt_checker_free(b);
+  bool ran1 = G_RAN;
+  // the same callback installed OVER another one (first an idle callback with its own context, then this one with a context):
+  // the callback set last is the one that runs
+  { jwt_checker_t *c3 = make_checker(x.c); static int idle_ctx = 0, ctx2 = 0; jwt_checker_setcb(c3, idle_cb, &idle_ctx); Prog p3 = x.p; G_PROG = &p3; jwt_checker_setcb(c3, mut_cb, &ctx2); dirty(c3); G_RAN = false;
+    int v3 = jwt_checker_verify(c3, TOKEN.c_str()); bool ran3 = G_RAN; jwt_checker_free(c3); G_PROG = &p;
+    if (ran3 != ran1) return "callback-installed-over-another-one-does-not-run";
+    if ((v3 == 0) != (v1 == 0)) return "verdict-differs-when-the-callback-replaced-another-one"; }
+  G_RAN = ran1;
   if (v0out) *v0out = v0;
   if (nt) {
     *nt = false;
